@@ -54,7 +54,7 @@ CFG = {
                                  "C17_numfmt_int", "C17_injective",
                                  "C17_tie_encode", "C17_roundtrip_src", "C17_unsupported_src", "C17_unsupported_error_src",
                                  "C17_roundtrip_checked", "C17_roundPos_rne", "C17_toBits_sound", "C17_rne_unique", "C17_rne_mono", "C17_shortest_sound",
-                                 "C17_goG_passes", "C17_goG_shortest", "C17_goG_zero",
+                                 "C17_goG_passes", "C17_goG_shortest", "C17_goG_zero", "C17_goG_layout_fixpoint",
                                  "C17_shortest_sound_zero", "C17_goG_exists", "C17_numfmt_exists", "C17_roundtrip_exists"]],
     "trusted_base": [
         "Lean 4.33.0 kernel; axioms of every theorem printed by #print axioms must be within {propext, Classical.choice, Quot.sound}",
@@ -68,6 +68,9 @@ CFG = {
         "(C17_roundPos_rne, C17_toBits_sound, C17_rne_unique) and the shortest-form test is proved sound (C17_shortest_sound); what remains "
         "trusted here is the definition of the value of a bit pattern (Dec.valPos: subnormal m*2^-1074, normal (2^52+m)*2^(e-1075)) and of a "
         "literal (Dec.parseLit/magVal: mant*10^scale); Dec.toBits is still cross-validated against strconv.ParseFloat every run (class numconv)",
+        "strconv's layout (formatDigits 'g'/shortest, fmtE, fmtF of Go 1.23 ftoa.go) is modelled by hand in lean/GeomV/C17/GoFmt.lean and compared with Go's own "
+        "rendering of every finite coordinate on every run (isGoLayout); C17_goG_passes/_shortest/_exists reduce what is assumed of AppendFloat to: "
+        "ryuFtoaShortest returns shortest round-tripping digits (itself tested per coordinate)",
         "the reading of OGC 06-103r4 section 7.2.2 into lean/GeomV/C17/Spec.lean (2-D productions, white space optional between tokens, "
         "letters case-insensitive)",
         "harness/cmd/c17 + lean driver + lib/vcheck.py transport inputs faithfully",
@@ -75,10 +78,10 @@ CFG = {
     "assumptions": ["nil slices and empty slices are not distinguished; nil interface values are outside the property (reflect.TypeOf(nil))",
                     "non-finite coordinates (rendered NaN/+Inf/-Inf by strconv) are outside the statement: compared with the model only"],
     "rule": "fixed corpus (each type, multi-member nestings, guard boundary, unsupported types, exponent-notation boundaries 1e21/1e-4, -0, "
-            "subnormals, 17-digit values) + grammar-generated geometries of the five types (member counts 1..6, ring counts 1..4, occasionally 17..300; 'wide' geometries with 65/129/257/1025 members at exactly one nesting level) "
-            "with coordinates from {arbitrary finite 64-bit patterns, subnormals, -0, values within 3 ulp of 1e21/1e20/1e-4/1e-5/1e-7, integers, "
+            "subnormals, 17-digit values, the real %e switch 999999/1e6/1e-4/1e-5) + grammar-generated geometries of the five types (member counts 1..6, ring counts 1..4, occasionally 17..300; 'wide' geometries with 65/129/257/1025 members at exactly one nesting level) "
+            "with coordinates from {arbitrary finite 64-bit patterns, subnormals, -0, values within 3 ulp of 1e21/1e20/1e-4/1e-5/1e-7/1e5/1e6/1e7, integers, "
             "17-significant-digit values, 2^e sweep, quarter grid}; 5% each: empty members, non-finite, unsupported types; plus decimal-literal "
-            "cross-validation cases (class numconv); pointer-typed geometries (encp: *geom.Point ... not listed in Encode's switch); every other enc line (by hash of the line) is preceded by one Encode call on a long geometry with -0/extreme values (used encoder) and/or has all its slices rebuilt with spare capacity holding junk beyond len; 70 (thorough 500) cc lines: reference answer alone, then 8 goroutines repeat the call on private copies while 8 others encode 1025-vertex / 257-ring geometries (class conc-); 2 (12) histories of 300 calls; plus batch lines (a history of 2..8 Encode calls whose returned slices are kept and re-verified after the whole batch); distinct = distinct input line; non-trivial = verdict class not 'skipped'",
+            "cross-validation cases (class numconv); pointer-typed geometries (encp: *geom.Point ... not listed in Encode's switch); every other enc line (by hash of the line) is preceded by one Encode call on a long geometry with -0/extreme values (used encoder) and/or has all its slices rebuilt with spare capacity holding junk beyond len; 70 (thorough 500) cc lines: reference answer alone, then 8 goroutines repeat the call on private copies while 8 others encode 1025-vertex / 257-ring geometries (class conc-); 2 (12) histories of 300 calls; 300 (4000) geometries with repeated members (vertex/ring/line string/polygon occurring 2-3 times; on every other line value-equal members are one shared slice); enc lines with hash bit 3 are preceded by an Encode call on an unsupported type (error path), batch histories contain unsupported types; plus batch lines (a history of 2..8 Encode calls whose returned slices are kept and re-verified after the whole batch); distinct = distinct input line; non-trivial = verdict class not 'skipped'",
     "timeout": {"quick": 600, "thorough": 3000},
     "explanation": "Each real wkt.Encode output is (1) parsed by the independent Lean OGC parser with exact round-to-nearest-even number "
                    "conversion and compared bit-for-bit with the input geometry (SPEC), each number token additionally checked to be the "
